@@ -650,9 +650,10 @@ def output_rules(repo: Repo, rep, P: str):
                 if norm(node) == "self._index":
                     return ast.copy_location(ast.Constant(value=k), node)
                 return self.generic_visit(node)
+        in_if = {id(x) for top in pc.body if isinstance(top, ast.If) for x in ast.walk(top)}
         for st in ast.walk(pc):
             tgt = val = None
-            if isinstance(st, ast.Assign) and any(norm(t) == "self.object" for t in st.targets):
+            if isinstance(st, ast.Assign) and any(norm(t) == "self.object" for t in st.targets) and id(st) not in in_if:
                 val = st.value
             if val is None:
                 continue
